@@ -5,6 +5,7 @@ import (
 	"sort"
 	"strings"
 	"testing"
+	"time"
 
 	"github.com/openziti/storage/ast"
 	"go.etcd.io/bbolt"
@@ -260,6 +261,7 @@ func TestC01(t *testing.T) {
 		},
 		Gen:            genC01,
 		Run:            runC01,
+		CaseTimeout:    5 * time.Minute,
 		QuickChecks:    2500,
 		ThoroughFactor: 12,
 	})
